@@ -38,7 +38,7 @@ def main(tier, seed, cases=None):
         return 2
     chk.evaluations = j["globs"] - j["globs_skipped_undefined"]
     for k in ("match_checks", "positives", "partial_checks", "selector_checks", "relative_checks", "exclude_checks",
-              "pruned_dirs", "ci_checks", "globs_skipped_undefined", "exhaustive_globs", "random_globs", "paths"):
+              "pruned_dirs", "ci_checks", "ci_partial_checks", "globs_skipped_undefined", "exhaustive_globs", "random_globs", "paths"):
         chk.extra[k] = j[k]
     chk.extra["bounded_part"] = "all globs of <= %d tokens (exhaustive); beyond that random" % j["max_tokens"]
     chk.exhaustive = False
